@@ -426,3 +426,25 @@ theorem compress_bug_eq (t : Table) (xs : List UInt8) :
   · rw [if_neg h0, if_neg (by omega)]
 
 end Tw.Huffman
+
+namespace Tw.Huffman
+
+/-- `compress_into_vec` reserves `3 * len + 3` bytes and unwraps: that always suffices -/
+theorem compressedLen_le_vec (t : Table) (h : WellFormed t) (xs : List UInt8) :
+    compressedLen t xs ≤ 3 * xs.length + 3 := by
+  have hsum : ∀ ys : List UInt8, (ys.map fun b => symLen t b.toNat).sum ≤ 24 * ys.length := by
+    intro ys
+    induction ys with
+    | nil => simp
+    | cons y ys ih =>
+      have hy : y.toNat < NUM_SYMBOLS := by
+        have := y.toNat_lt; simp [NUM_SYMBOLS]; omega
+      have := (h.leaf hy).2.1
+      simp only [List.map_cons, List.sum_cons, List.length_cons]
+      omega
+  have he := (h.leaf (show EOF < NUM_SYMBOLS by decide)).2.1
+  have := hsum xs
+  simp only [compressedLen, compressedBitLen]
+  omega
+
+end Tw.Huffman
